@@ -6,6 +6,21 @@ VERIF = os.path.dirname(os.path.abspath(__file__))
 
 # property id -> (level category, technique, level text, level note, design ref)
 CLAIMED = {
+    "C01": ("exploration",
+            "ledger monitor (sha256 lookup of unique self-describing payloads) inside receiver callbacks on every swarm stack, with buffer canaries and injected delays; thorough adds a -race pass",
+            "All-pairs concurrent traffic on every stack and nesting; each delivered payload must be one told to this receiver, Src must name the teller and Dst the receiver; callback buffers are checksummed and scribbled, sender buffers compared and overwritten after Tell, replies go to the observed Src (also from inside the callback), some Tells carry deadlines that expire mid-write.",
+            "Losses and duplicates are counted, not judged; QUIC/SSH stacks only in the thorough tier; ssh source ports are ephemeral so identity+IP decide there.",
+            "DESIGN.md §4 C01"),
+    "C05": ("exploration",
+            "state/ledger oracle on a victim Channel against honest peers and a raw attacker, plus encryption-site hook events",
+            "For every predicate, role, RespDone fault and peer kind the victim's RemoteKey/Send/WaitReady/Deliver results and the keys of the sessions that encrypted application data are checked against the predicate and, once bound, against the bound key; foreign-key handshakes (as initiator and as on-path responder to the victim's rekey) must leave the established session working.",
+            "Real timers (15 ms backoff); liveness is not judged here (C07).",
+            "DESIGN.md §4 C05"),
+    "C07": ("fault_enumeration",
+            "enumerated prefix scripts over a harness-owned network between real Channels; verdicts on a logical clock (quiescent retransmission rounds) and confirmed quiescence, not wall-clock",
+            "Every script over {deliver, drop, duplicate, hold-and-swap} up to length k, crossed with first-Send timing and peer restart points, then reliable delivery: a Send pending after K=10 quiescent retransmission rounds, or pending while nothing is in flight and no handshake timer is armed for 1 s, is a violation; then traffic must flow both ways. Plus rotation (6 rekey periods of two-way traffic), expiry and data-overtakes-RespDone families.",
+            "K=10 rounds is the harness's reading of 'small bounded number'; three restart-mid-handshake histories are listed as open known findings; rotation/expiry families run only in the plain (non-race) pass.",
+            "DESIGN.md §4 C07"),
     "C13": ("exploration",
             "offline trace-specification checker over boundary-recorded histories (rendezvous spec, conservation) + porcupine bag model for the queue + parked-goroutine detector for cancellation",
             "TellHub, AskHub and Queue are driven directly by 1-8 producers/receivers with per-call contexts, closes and seeded delays at hook points; all events are stamped from one counter at the API boundary and checked offline: exactly-one callback per message, success only after the callback finished, error only if no callback ever saw it, overlapping intervals, conservation, own-context errors; cancelled calls (also udpswarm/vswarm Receive) must not remain parked.",
